@@ -139,12 +139,34 @@ class C06(Engine):
         panel = sorted(rp.sample(all_ids, min(panel_n, len(all_ids))))
         specs = ["rev", "checks_first", "primaries_first"] + [1000 + self.seed * 1000 + k for k in range(n_perm)]
         specs = specs[:n_perm] if q else specs
+        self.listing_specs = specs
+        # canonical listing once, through the same code path (baseline of the derived rule order)
+        yield 4_999_000, {"kind": "listing", "boot": {"listing": None, "reboot": True}, "report_boot": True,
+                          "ops": [{"op": "api", "file": panel[0], "fresh_registry": True}]}
         for k, spec in enumerate(specs):
             for part in range(0, len(panel), 10):
                 yield 5_000_000 + k * 100 + part, {"kind": "listing", "boot": {"listing": spec, "hide_pycache": k % 2 == 1},
                                                    "report_boot": True,
                                                    "ops": [{"op": "api", "file": f, "fresh_registry": j == 0}
                                                            for j, f in enumerate(panel[part:part + 10])]}
+
+    def scenarios_listing_bias(self):
+        """Search bias (not an oracle): a listing permutation under which the derived order of the primary rules differs
+        from the canonical one is a rare condition that can only exist when two primaries tie on priority. For such
+        permutations the whole pool - not just the panel - is analysed, since only statements both tied rules match
+        can show a difference."""
+        canon = self.order_by_spec.get("null")
+        differing = [spec for spec, sha_ in sorted(self.order_by_spec.items()) if canon is not None and sha_ != canon]
+        self.stats["listing_perms_changing_primary_order"] = len(differing)
+        P = self.pools
+        ids = sorted(P.files)
+        idx = 5_500_000
+        for spec_s in differing[:3]:
+            spec = json.loads(spec_s)
+            for part in range(0, len(ids), 12):
+                yield idx, {"kind": "listing", "boot": {"listing": spec}, "report_boot": True,
+                            "ops": [{"op": "api", "file": f, "fresh_registry": j == 0} for j, f in enumerate(ids[part:part + 12])]}
+                idx += 1
 
     # ---- references ------------------------------------------------------------------------------
     def refs_needed(self, sc):
@@ -288,6 +310,7 @@ class C06(Engine):
         elif kind == "listing":
             self.fire("listing_perm")
             b = r.get("boot") or {}
+            self.order_by_spec[json.dumps(sc["boot"].get("listing"))] = core.sha(repr(b.get("primaries")))
             self.rule_orders.add(core.sha(repr(b.get("primaries"))))
             self.check_orders.add(core.sha(repr(b.get("checks"))))
             self.distinct.add(("listing", str(sc["boot"]["listing"]), sc["boot"].get("hide_pycache")))
@@ -346,12 +369,14 @@ class C06(Engine):
         self.internal_sites = set()
         self.rule_orders = set()
         self.check_orders = set()
+        self.order_by_spec = {}
         self.prepare()
         self.run_bulk(self.scenarios())
         tainters = sorted(self.tainted_after)
         self.stats["tainting_predecessors"] = {self.pools.files[t]["name"]: sorted(",".join(d) for d in self.tainted_after[t])
                                                for t in tainters[:20]}
         self.run_bulk(self.scenarios_phase2(tainters))
+        self.run_bulk(self.scenarios_listing_bias())
         self.hashseed_phase()
         self.recheck_killed()
         self.stats["fatal_raise_sites_as_predecessor"] = len(self.fatal_sites)
